@@ -142,6 +142,9 @@ Textbuffer_write(Textbuffer *self, Py_UCS4 code)
         }
     }
 
+    if (code == INPUT_NUL) {
+        code = 0;
+    }
     PyUnicode_WRITE(self->kind, self->data, self->length++, code);
 
     return 0;
